@@ -36,6 +36,14 @@ h_stream(void)
 	for (int k = 0; k < 8; k++)
 		nonce0[k] = S->pblk[k];
 
+#ifdef CTR_HAVOC_HWACCEL
+	{
+		IN(int, hw);		/* dispatcher build: every value of the selection variable */
+		__CPROVER_assume(hw >= HW_SOFTWARE && hw <= HW_UNSET);
+		hwaccel = hw;
+	}
+#endif
+
 	crypto_aesctr_stream(S, in, out, len);
 
 	__CPROVER_assert(S->bytectr == ctr0 + len, "position advanced by exactly buflen");
@@ -43,6 +51,9 @@ h_stream(void)
 	if (g_i < len && CTR_AT(S, ctr0 + g_i))
 		__CPROVER_assert(out[g_i] == (inb ^ CTR_KS(ctr0 + g_i)), "out[i] = in0[i] ^ E(key, nonce||be64((pos+i)/16))[(pos+i)%16]");
 	VCOVER(len == 0);
+#ifdef CTR_EXTRA_MARKERS
+	CTR_EXTRA_MARKERS;
+#endif
 	VCOVER(len == 3 && ctr0 % 16 == 14 && g_i == 2 && CTR_AT(S, ctr0 + g_i));			/* straddles a block */
 #if BUFMODE == 1
 	VCOVER(len == 40 && ctr0 % 16 == 5 && g_i == 39 && CTR_AT(S, ctr0 + g_i) && bufmode == 1);	/* head+2 blocks+tail, in place */
